@@ -1050,6 +1050,58 @@ def rat_of(lit):
 
 
 # ------------------------------------------------------------------------------------------
+# unit: Dynamics  (dB conversions of lib/math.cpp, gain computers of the compressor and limiter)
+
+
+def gen_dynamics():
+    out = [HEADER % "lib/math.cpp (mag2db, db2mag, pow2db, db2pow), include/dsplib/math.h (abs2(real_t)), "
+                    "include/dsplib/audio/compressor.h, limiter.h (_compute_gain)",
+           "import DspVerif.Scalar\nnamespace Dsp\nnamespace Gen\n", SCALAR_VARS]
+    tu = "#include <dsplib.h>\n"
+    # scalar helpers
+    docs = clang_ast('#include "math.cpp"\n', "dsplib::")
+
+    def free_fn(name, first_param_kind):
+        for d in docs:
+            if d.get("kind") == "FunctionDecl" and d.get("name") == name and any(c.get("kind") == "CompoundStmt" for c in d.get("inner", [])):
+                ps = params_of(d)
+                if len(ps) == 1 and kind_of_type(qt(ps[0])) == first_param_kind:
+                    return d
+        raise Unsupported("%s(%s) not found" % (name, first_param_kind))
+
+    for name in ("mag2db", "db2mag", "pow2db", "db2pow"):
+        f = free_fn(name, "real")
+        tr = Tr()
+        body = tr.stmts([body_of(f)], "?", False)
+        out.append("/-- `%s(real_t)` of lib/math.cpp -/\ndef %s (%s : α) : α :=\n%s\n" % (name, name, params_of(f)[0]["name"], indent(body)))
+    f = free_fn("abs2", "real")
+    out.append("/-- `abs2(const real_t&)` of include/dsplib/math.h -/\ndef abs2r (%s : α) : α :=\n%s\n" % (
+        params_of(f)[0]["name"], indent(Tr().stmts([body_of(f)], "?", False))))
+    calls = {"mag2db": lambda a, n: "(mag2db %s)" % a[0], "db2mag": lambda a, n: "(db2mag %s)" % a[0],
+             "abs2": lambda a, n: "(abs2r %s)" % a[0], "eps": lambda a, n: "eps"}
+    for cls, lname, fields in (("Compressor", "compressorGain", [("T_", "T", "α"), ("R_", "R", "Int"), ("W_", "W", "α")]),
+                               ("Limiter", "limiterGain", [("T_", "T", "α"), ("W_", "W", "α")])):
+        rec = record(clang_ast(tu, cls), cls)
+        ms = [m for m in rec["inner"] if m.get("kind") == "CXXMethodDecl" and m.get("name") == "_compute_gain"]
+        if len(ms) != 1:
+            raise Unsupported("%s::_compute_gain not found" % cls)
+        # field types must be what the signature below says (this is how `int R_` is exposed)
+        ftypes = {c["name"]: kind_of_type(qt(c)) for c in rec["inner"] if c.get("kind") == "FieldDecl"}
+        for cf, lf, lt in fields:
+            want = "int" if lt == "Int" else "real"
+            if ftypes.get(cf) != want:
+                raise Unsupported("%s::%s has type kind %s, expected %s" % (cls, cf, ftypes.get(cf), want))
+        tr = Tr(this_name="p", fields={cf: lf for cf, lf, _ in fields}, user_calls=calls)
+        body = tr.stmts([body_of(ms[0])], "?", False)
+        out.append("/-- parameters of `%s` read by its gain computer -/\nstructure %sParams (α : Type) where\n%s\n" % (
+            cls, cls, "\n".join("  %s : %s" % (lf, lt) for _, lf, lt in fields)))
+        out.append("/-- `%s::_compute_gain(real_t x)`: static gain in dB for input sample `x` (`eps` = `eps()`) -/\n"
+                   "def %s (eps : α) (p : %sParams α) (%s : α) : α :=\n%s\n" % (cls, lname, cls, params_of(ms[0])[0]["name"], indent(body)))
+    out.append("end Gen\nend Dsp\n")
+    return "\n".join(out)
+
+
+# ------------------------------------------------------------------------------------------
 UNITS = {}
 
 
@@ -1063,6 +1115,7 @@ def unit(name, sources):
 unit("Cmplx", ["include/dsplib/types.h"])(gen_cmplx)
 unit("Slice", ["include/dsplib/slice.h"])(gen_slice)
 unit("SmallFft", ["lib/fft/small-fft.h", "lib/fft/primes-fft.h"])(gen_smallfft)
+unit("Dynamics", ["lib/math.cpp", "include/dsplib/math.h", "include/dsplib/audio/compressor.h", "include/dsplib/audio/limiter.h"])(gen_dynamics)
 unit("Consts", ["lib/primes.cpp", "lib/fft/primes-fft.h", "lib/fft/fft.cpp", "CMakeLists.txt"])(gen_consts)
 
 
